@@ -132,14 +132,16 @@ fn plans(cli: &Cli, prop: Prop) -> Vec<Plan> {
             let wide_checked = letters(&lists(&all, if thorough { 2 } else { 1 }), &[(1, 1, 1), (0, 0, 2)], SRC_CHECKED);
             out.push(Plan { subject: ExecSubject::new("wide, pre-checked transactions (pool-like source)", u.clone(), prop, wide_checked), depth: if thorough { 1 } else { 2 } });
             // (b) deep: histories of blocks over a core set
-            let core_names: Vec<&str> = if thorough || prop == Prop::C02 {
-                vec!["xfer", "dblspend", "dep", "call_ok", "call_rvrt", "call_tro", "create", "call_c3", "msgdata_rvrt", "msgdata_ok", "msg_early", "msg_relayed", "expiring", "noout", "missing", "call_smo"]
+            let core_names: Vec<&str> = if (thorough && prop != Prop::C06) || prop == Prop::C02 {
+                vec!["xfer", "dblspend", "dep", "call_ok", "call_rvrt", "call_tro", "create", "call_c3", "msgdata_rvrt", "msgdata_ok", "msg_early", "msg_relayed", "expiring", "noout", "missing", "call_smo", "upgrade_cp"]
             } else {
-                vec!["xfer", "dblspend", "dep", "call_ok", "call_rvrt", "create", "call_c3", "msgdata_rvrt", "msgdata_ok", "msg_relayed", "expiring", "noout"]
+                vec!["xfer", "dblspend", "dep", "call_ok", "call_rvrt", "create", "call_c3", "msgdata_rvrt", "msgdata_ok", "msg_relayed", "expiring", "noout", "upgrade_cp"]
             };
             let core = t(&u, &core_names);
             let deep_lists = if thorough { lists(&core, 2) } else { lists(&core, 1) };
-            let deep_params: Vec<(u64, u8, u8)> = if thorough {
+            let deep_params: Vec<(u64, u8, u8)> = if thorough && prop == Prop::C06 {
+                vec![(0, 0, 1), (1, 1, 0)]
+            } else if thorough {
                 vec![(0, 0, 0), (1, 1, 1), (1, 2, 2)]
             } else if prop == Prop::C02 {
                 vec![(0, 0, 1), (1, 1, 0), (1, 2, 2)]
@@ -151,7 +153,7 @@ fn plans(cli: &Cli, prop: Prop) -> Vec<Plan> {
             if thorough {
                 let l3 = letters(&lists(&core[..10], 3), &[(1, 1, 1)], 0);
                 out.push(Plan { subject: ExecSubject::new("triples: <=3 of 10 core templates, 1 block", u.clone(), prop, l3), depth: 1 });
-                let singles = letters(&lists(&core[..13], 1), &[(0, 0, 1), (1, 1, 0)], 0);
+                let singles = letters(&lists(&core[..core.len().min(13)], 1), &[(0, 0, 1), (1, 1, 0)], 0);
                 out.push(Plan { subject: ExecSubject::new("deeper: 4-block histories of single-transaction blocks", u.clone(), prop, singles), depth: 4 });
             }
             // (c) tight limits
@@ -182,6 +184,8 @@ fn plans(cli: &Cli, prop: Prop) -> Vec<Plan> {
             if thorough {
                 let l3 = letters(&lists(&core[..8], 3), &[(1, 1, 0)], 0);
                 out.push(Plan { subject: ExecSubject::new("triples: <=3 of 8 templates", u.clone(), prop, l3), depth: 1 });
+                let singles = letters(&lists(&core, 1), &[(1, 1, 0), (1, 2, 1)], 0);
+                out.push(Plan { subject: ExecSubject::new("deeper: 4-block histories of single-transaction blocks", u.clone(), prop, singles), depth: 4 });
             }
             let u = Universe::new(CpVariant::TinyGas, 0);
             let set = t(&u, &["xfer", "call_oog", "spin", "call_rvrt", "call_ok"]);
@@ -205,16 +209,28 @@ fn plans(cli: &Cli, prop: Prop) -> Vec<Plan> {
                     t(&u, &["xfer", "call_oog", "spin", "call_ok", "big", "xfer_b"])
                 };
                 let params: Vec<(u64, u8, u8)> = if thorough {
-                    vec![(0, 0, 0), (0, 1, 0), (1, 0, 0), (1, 1, 0), (2, 2, 0), (3, 1, 0)]
+                    if v == CpVariant::Default { vec![(0, 1, 0), (1, 0, 0), (1, 1, 0), (2, 2, 0)] } else { vec![(0, 0, 0), (0, 1, 0), (1, 0, 0), (1, 1, 0), (2, 2, 0), (3, 1, 0)] }
                 } else if v == CpVariant::Default {
                     vec![(0, 0, 0), (0, 1, 0), (1, 0, 0), (1, 1, 0), (2, 2, 0)]
                 } else {
                     vec![(0, 1, 0), (1, 0, 0), (2, 2, 0)]
                 };
-                let max_len = if v == CpVariant::Default { 2 } else if thorough { 4 } else if src == SRC_HONEST { 3 } else { 2 };
+                let max_len = if v == CpVariant::Default {
+                    if thorough { 3 } else { 2 }
+                } else if thorough {
+                    4
+                } else if src == SRC_HONEST {
+                    3
+                } else {
+                    2
+                };
                 let l = letters(&lists(&set, max_len), &params, src);
                 let kind = ["once-source", "greedy-source", "honest-source"][src as usize];
-                out.push(Plan { subject: ExecSubject::new(&format!("{v:?} {kind}: lists<={max_len}"), u, prop, l), depth: if thorough && v == CpVariant::Default { 2 } else { 1 } });
+                if thorough && v == CpVariant::Default {
+                    let singles = letters(&lists(&set, 1), &params, src);
+                    out.push(Plan { subject: ExecSubject::new("Default once-source: 2-block histories of single-transaction blocks", u.clone(), prop, singles), depth: 2 });
+                }
+                out.push(Plan { subject: ExecSubject::new(&format!("{v:?} {kind}: lists<={max_len}"), u, prop, l), depth: 1 });
             }
             if thorough {
                 // the transaction-count limit with its production value (u16::MAX - 1, plus the mint):
